@@ -34,7 +34,7 @@ class NormalizeCase(Case):
         return f"{self.which} weights, n={self.n}, symbolic threshold"
 
     def inputs(self, env):
-        w = env.reals("w", self.n, lo=0, hi=100)
+        w = env.reals("w", self.n, lo=-100, hi=100)        # entries may be negative as long as the sum is positive
         env.assume(ssum(list(w)) >= Fraction(1, 1000))
         return {"w": w, "rmin": env.integer("rmin", 0, self.n + 2)}
 
